@@ -110,3 +110,45 @@ package syncer
 //@   prove decodes: err2 == nil
 //@   prove key: seqof(dec.Key) == seqof(kv.Key)
 //@   prove value: sameSlice(dec.Value, kv.Value) && dec.Flags == kv.Flags
+
+// ---------------------------------------------------------------- sync loop (ghost LMDB model, /verif/spec/lmdb.contracts)
+
+// mainToShadow captures every application change visible to the write
+// transaction into the shadow DBIs (content-level claim: C11; assumed here).
+//@ func (s *Syncer) mainToShadow
+//@   trusted
+//@   modifies ghost_uncap, ghost_dirty
+//@   ensures captured: r0 == nil ==> ghost_uncap == 18446744073709551615
+//@   ensures dirty_only_set: ghost_dirty == old(ghost_dirty) || ghost_dirty == 1
+
+// shadowToMain rewrites the application DBIs from the shadow state: every
+// application commit visible to this transaction must have been captured.
+//@ func (s *Syncer) shadowToMain
+//@   trusted
+//@   requires captured: ghost_uncap > ghost_curTxn - 1
+//@   modifies ghost_dirty
+//@   ensures dirty_only_set: ghost_dirty == old(ghost_dirty) || ghost_dirty == 1
+
+//@ func (s *Syncer) deletedCutoff
+//@   trusted
+//@   pure
+
+//@ func (s *Syncer) LoadOnce
+//@   requires inv: ghostInv()
+//@   requires not_in_txn: ghost_inTxn == 0
+//@   requires synced_le_last: uint64(lastTxnID) <= ghost_last
+//@   requires synced_unpub: uint64(lastTxnID) < ghost_unpub
+//@   requires synced_uncap: !s.lc.SchemaTracksChanges ==> uint64(lastTxnID) < ghost_uncap
+//@   modifies *
+//@   ensures inv: ghostInv()
+//@   ensures ret_le_last: err == nil ==> uint64(txnID) <= ghost_last
+//@   ensures ret_below_unpub: err == nil && !localChanged ==> uint64(txnID) < ghost_unpub
+//@   ensures ret_below_uncap: err == nil && !localChanged && !old(s.lc.SchemaTracksChanges) ==> uint64(txnID) < ghost_uncap
+//@   ensures unpub_kept: err == nil && localChanged ==> uint64(lastTxnID) < ghost_unpub
+
+// A yield point: the application may commit here (same effect as at every
+// call into the environment; the hook exists only to replay schedules).
+//@ func verifYield
+//@   trusted
+//@   modifies ghost_last, ghost_lastApp, ghost_unpub, ghost_uncap, ghost_pend
+//@   ensures app: appHavocRel(old(ghost_last), ghost_last, old(ghost_lastApp), ghost_lastApp, old(ghost_unpub), ghost_unpub, old(ghost_uncap), ghost_uncap, old(ghost_pend), ghost_pend)
